@@ -1399,6 +1399,7 @@ pub open spec fn write_frame(old: World, fin: World, base: PathV, name: Seq<u8>,
                  + (' && final(w).files[%s] == old(w).files[pv(value)]' % DST if opname == 'set' else '')),
                 ('C13 C11:success-means-a-publication-happened' + ('' if opname == 'set' else '-unless-the-key-was-already-bound'),
                  'r.is_ok() ==> final(w).published > old(w).published' + ('' if opname == 'set' else ' || old(w).files.contains_key(%s)' % DST)),
+                ('C18 C05:without-a-real-fault-a-failed-write-published-nothing', 'r.is_err() && final(w).hard_faults == old(w).hard_faults ==> final(w).published == old(w).published'),
                 ('C01 C03 C19:a-write-never-changes-the-bytes-of-any-file',
                  'bytes_kept(*old(w), *final(w))'),
                 ('C11 C04 C09 C10:exact-effect-when-nothing-failed',
